@@ -13,9 +13,10 @@ case "$place" in "repository"|"repo"|"root"|"the") place=".";; esac
 dst="$S/repo/$place/zz_seed_demo_test.go"
 cp "$DEMO" "$dst"
 tname=$(grep -o 'func Test[A-Za-z0-9_]*' "$DEMO" | head -1 | sed 's/func //')
-clean=$(cd "$S/repo/$place" && go test -vet=off -count=1 -run "^$tname\$" . 2>&1 | tail -1)
+RACE=""; head -15 "$DEMO" | grep -q -- '-race' && RACE="-race"
+clean=$(cd "$S/repo/$place" && go test $RACE -vet=off -count=1 -run "^$tname\$" . 2>&1 | tail -1)
 if ! (cd "$S/repo" && patch -s -p1 < "$PATCH"); then echo "SEED $ID-$K: patch does not apply"; exit 3; fi
-mut=$(cd "$S/repo/$place" && go test -vet=off -count=1 -run "^$tname\$" . 2>&1 | tail -1)
+mut=$(cd "$S/repo/$place" && go test $RACE -vet=off -count=1 -run "^$tname\$" . 2>&1 | tail -1)
 rm -f "$dst"
 suite=$(cd "$S/repo" && go test -vet=off -count=1 ./... 2>&1 | grep -c '^FAIL')
 out=$(TRY_LINES=400 VERIF_BUDGET_S=${VERIF_BUDGET_S:-900} "$V/mutants/try.sh" "$CHECK" "$PATCH" 2>&1 | grep -E '^(VIOLATION|  key=|TRY)' | grep -A1 -E '^(VIOLATION|TRY)' | grep -v '^--' | cut -c1-400)
